@@ -37,7 +37,7 @@ type Shape struct {
 	Payer   bool   `json:"payer"`   // AuthInfo.fee.payer set
 	Granter bool   `json:"granter"` // AuthInfo.fee.granter set
 	Memo    bool   `json:"memo"`
-	Timeout bool   `json:"timeout"`
+	Timeout string `json:"timeout"` // magnitude class of the timeout height: zero | one | cur | future | maxi64 | two63 | two63k | maxu64
 	Fee     string `json:"fee"`     // declared fee vs the embedded Ethereum tx's: eq | more | less | denom | none
 	Gas     string `json:"gas"`     // declared gas limit vs the embedded Ethereum tx's: eq | more | less
 	EthType string `json:"ethType"` // legacy | dyn (EIP-1559) | al (EIP-2930)
@@ -107,6 +107,42 @@ func extOptions(kind string) (crit, non []*codectypes.Any) {
 		infra("unknown ext kind %q", kind)
 	}
 	return
+}
+
+// magnitude maps a symbolic magnitude class to the real number.
+func magnitude(class string) (*big.Int, bool) {
+	switch class {
+	case "zero":
+		return big.NewInt(0), true
+	case "one":
+		return big.NewInt(1), true
+	case "maxi64":
+		return new(big.Int).SetUint64(1<<63 - 1), true
+	case "two63":
+		return new(big.Int).SetUint64(1 << 63), true
+	case "maxu64":
+		return new(big.Int).SetUint64(^uint64(0)), true
+	}
+	return nil, false
+}
+
+// timeoutOf maps a timeout-height class to the real value.
+func (e *Env) timeoutOf(class string) uint64 {
+	switch class {
+	case "", "zero":
+		return 0
+	case "cur":
+		return uint64(e.C.Height)
+	case "future":
+		return uint64(e.C.Height + 1_000_000)
+	case "two63k":
+		return 1<<63 + 12345
+	}
+	if m, ok := magnitude(class); ok {
+		return m.Uint64()
+	}
+	infra("unknown timeout class %q", class)
+	return 0
 }
 
 // ethMsg builds a signed transfer of 1 wei from a to the recipient (legacy unless typ says otherwise).
@@ -220,8 +256,12 @@ func (e *Env) Build(s Shape, a *chain.Acct) Built {
 	if s.Memo {
 		o.Memo = "memo"
 	}
-	if s.Timeout {
-		o.Timeout = uint64(e.C.Height + 1_000_000)
+	switch s.Timeout {
+	case "", "zero":
+	case "future":
+		o.Timeout = e.timeoutOf("future")
+	default:
+		infra("shape outside the builder's domain (Cosmos-lane timeout %q)", s.Timeout)
 	}
 	if s.Payer || s.Granter || s.Fee != "eq" || s.Gas != "eq" || s.Sigs != s.Sinfos {
 		infra("shape outside the builder's domain: %+v", s)
@@ -256,17 +296,19 @@ func (e *Env) buildEth(s Shape, a *chain.Acct, seq, num uint64) []byte {
 	if s.Memo {
 		pt.Body.Memo = "memo"
 	}
-	if s.Timeout {
-		pt.Body.TimeoutHeight = uint64(c.Height + 1_000_000)
-	}
+	pt.Body.TimeoutHeight = e.timeoutOf(s.Timeout)
 	if s.Payer {
 		pt.AuthInfo.Fee.Payer = e.Payer.Acc().String()
 	}
 	if s.Granter {
 		pt.AuthInfo.Fee.Granter = e.Granter.Acc().String()
 	}
+	if m, ok := magnitude(s.Fee); ok {
+		// an explicit coin of that amount (zero included: the encoding admits it)
+		pt.AuthInfo.Fee.Amount = sdk.Coins{sdk.Coin{Denom: chain.Denom, Amount: sdkmath.NewIntFromBigInt(m)}}
+	}
 	switch s.Fee {
-	case "eq":
+	case "eq", "zero", "one", "maxi64", "two63", "maxu64":
 	case "more":
 		pt.AuthInfo.Fee.Amount = sdk.NewCoins(sdk.NewInt64Coin(chain.Denom, ethGas*ethGasPrice+1))
 	case "less":
@@ -278,8 +320,11 @@ func (e *Env) buildEth(s Shape, a *chain.Acct, seq, num uint64) []byte {
 	default:
 		infra("unknown fee variant %q", s.Fee)
 	}
+	if m, ok := magnitude(s.Gas); ok {
+		pt.AuthInfo.Fee.GasLimit = m.Uint64()
+	}
 	switch s.Gas {
-	case "eq":
+	case "eq", "zero", "one", "maxi64", "two63", "maxu64":
 	case "more":
 		pt.AuthInfo.Fee.GasLimit = ethGas + 1
 	case "less":
